@@ -10,7 +10,11 @@
   Assumptions carried by the extractor (trusted, validated dynamically by the fingerprint and race
   harness): syntactic points-to rules, allow-list of external calls, caller-supplied function
   values (search predicate, overlay visitor, encoder / mapping functions, merge options) do not
-  write the document, all `dom.Node` implementations are the package's own.
+  write the document, all `dom.Node` implementations are the package's own.  A list merge function
+  that the analysed packages themselves hand to an option constructor (`ListsMergeAppend` passes
+  `mergeListsAppend` to `ListsMergeFunc`, which stores it in `merger.listMergeFn`) is NOT treated as
+  caller-supplied: the call through the field fans out to it, so a write through one of its list
+  arguments (e.g. an `append` into the first list's backing array) is charged to `Merged`.
 -/
 import YtkProofs.Effects
 import YtkModel.Generated.Effects
